@@ -42,6 +42,8 @@ type Hist struct {
 	EmptyVals bool `json:"emptyvals,omitempty"`
 	// IntKeys: one more DBI "di" with MDB_INTEGERKEY and 4-byte keys whose byte order differs from their integer order
 	IntKeys bool `json:"intkeys,omitempty"`
+	// LongKeys: key 0 has LMDB's maximum key size (511 bytes), key 1 one byte less
+	LongKeys bool `json:"longkeys,omitempty"`
 }
 
 func (h Hist) ID() string {
@@ -537,6 +539,10 @@ func runHistory(h Hist, env *runner.Env, res *runner.Result, which string, sched
 		// the application history is generated in lock-step so that it is schedule independent
 		if ar.Chance(3, 5) {
 			op := appOp{Inst: ar.Intn(h.NInst), DBI: dbis[ar.Intn(len(dbis))], Key: fmt.Sprintf("k%d", ar.Intn(h.NKeys))}
+			if h.LongKeys && (op.Key == "k0" || op.Key == "k1") {
+				op.Key += strings.Repeat("L", 511-2-int(op.Key[1]-'0'))
+				res.Count("ops_on_maximum_size_keys", 1)
+			}
 			if op.DBI == "di" {
 				var kb [4]byte
 				binary.LittleEndian.PutUint32(kb[:], intPool[ar.Intn(len(intPool))])
